@@ -4,7 +4,7 @@ Small-scope exhaustive enumeration: every text string over {00,20,'A','a'} up to
 x every buffer over the same alphabet up to a length bound (+ 2-byte-unit buffers for wide forms, + a sweep of all 256 byte
 values through seven templates), scanned by the real engine inside harness/space.c and compared offset by offset with the
 by-definition matcher ref_text."""
-import itertools, os, sys
+import re, itertools, os, sys
 sys.path.insert(0, os.path.join(os.path.dirname(os.path.abspath(__file__)), "..", "lib"))
 import yv
 
@@ -110,9 +110,8 @@ def main():
     maxb = 7 if quick else 8
     mods = modifier_sets()
     strings = [t for n in range(1, maxs + 1) for t in itertools.product(SIGMA, repeat=n)]
-    if not quick:
-        # length-5 strings (longer than an atom): all over the reduced alphabet {00,41,61}
-        strings += list(itertools.product([0x00, 0x41, 0x61], repeat=5))
+    # length-5 strings (longer than an atom): all over the reduced alphabet {00,41,61} (quick: {00,41})
+    strings += list(itertools.product([0x00, 0x41] if quick else [0x00, 0x41, 0x61], repeat=5))
     spaces = {
         "B1": ["B all %s %d" % (bytes(SIGMA).hex(), maxb),
                "B add units %s %d %s %s" % ("".join("%02x00" % c for c in SIGMA) + "6161", 3 if quick else 4, "61", "61")],
@@ -171,6 +170,14 @@ def main():
                     st = bytes.fromhex(meta["string"])
                     if len(st) > 1 and all(c == 0 for c in st[1:]):
                         shape = ":string-is-x-then-NULs(ascii-form-is-prefix-of-wide-form)"
+                if v["what"] == "extra" and "x" in flags and "a" in flags and "w" in flags:
+                    # every unexpected occurrence carries a key the declaration does not allow (the verifier derives the key from the
+                    # data and never compares it with the declared range; an atom of the wide form led it there)
+                    m = re.search(r"xor\((0x[0-9a-fA-F]+)(?:-(0x[0-9a-fA-F]+))?\)", meta["mods"])
+                    lo, hi = (int(m.group(1), 16), int(m.group(2) or m.group(1), 16)) if m else (0, 255)
+                    got = [g for g in v["got"] if g[0] == v["expected"].get("offset")]
+                    if got and all(not (lo <= g[2] <= hi) for g in got):
+                        shape = ":key-outside-declared-xor-range"
                 ck.violation("C01:%s:%s%s" % (v["what"], "".join(sorted(flags)), shape), dict(rule=rule, buffer_hex=v["buffer"], reported=v["got"], expected=v["expected"], **meta,
                                                                                      replay="echo 'rule' > r.yar; printf buffer | yara -s r.yar /dev/stdin"))
             if r["nontrivial"] and not r["viol"]:
@@ -180,7 +187,7 @@ def main():
     ck.cov["rule"] = ("programs = text strings over {00,20,41,61} (len<=%d%s) x %d legal modifier sets, plus 256 byte values x 7 templates x modifier sets; "
                       "inputs = every buffer over the alphabet with length<=%d plus 2-byte-unit sequences; a case = (program, buffer); non-trivial = the "
                       "reference expects at least one match in that buffer (distinct by construction: each (program, buffer) pair is visited once)" % (
-                          maxs, "" if quick else " and all len-5 over {00,41,61}", len(mods), maxb))
+                          maxs, " and all len-5 over " + ("{00,41}" if quick else "{00,41,61}"), len(mods), maxb))
     ck.assumptions += ["fullword neighbours are raw buffer bytes (also for xor strings); for a wide occurrence the neighbour is a 2-byte unit <alnum> 00",
                        "base64 = the three position-dependent encodings with neighbour-dependent characters stripped (manual's example reproduces)",
                        "where ascii/wide/xor variants coincide at one offset any admissible (length, key) is accepted"]
